@@ -207,8 +207,9 @@ def gen_scalar(kind, k):
         return [0.3, -0.7, 1.2, 0.0, 2.5, -1.9, 0.05, 3.0, math.pi, -math.pi, math.pi / 2,
                 2 * math.pi, 180.0, -180.0, 90.0, 360.0][k % 16]
     if kind == 'sc':
-        return [0.5, 2.0, -1.5, 1.0, 0.0, 3.25, -0.25, 10.0, -1.0, 1e-12, 90.0, 180.0, 1e7, -1e7,
-                1e-300, 2.0 ** 60][k % 16]
+        # (no huge magnitudes: x *= n with an integral n repeats a value list n times)
+        return [0.5, 2.0, -1.5, 1.0, 0.0, 3.25, -0.25, 10.0, -1.0, 1e-12, 90.0, 180.0, 1e-300, -0.0,
+                1000.5, 3.0][k % 16]
     if kind == 's01':
         return [0.0, 1.0, 0.5, 0.25, 0.9, 0.1][k % 6]
     if kind == 'int':
@@ -224,7 +225,10 @@ def gen_scalar(kind, k):
 
 # forms a vector / matrix argument can take
 VEC_FORMS = ['array', 'list', 'tuple', 'row', 'col', 'intarray', 'intlist', 'view', 'strided',
-             'f32', 'f16', 'bigendian', 'readonly', 'complex', 'masked', 'iterator']
+             'f32', 'f16', 'bigendian', 'readonly', 'complex', 'masked']
+# (a one-shot iterator was tried as a form and dropped: DualQuaternion keeps a reference to whatever
+#  it is given, so a consumed iterator lives on inside a heap object and no call on that object can
+#  be delivered twice)
 MAT_FORMS = ['array', 'fortran', 'view', 'strided', 'transposed', 'nested', 'intarray', 'f32',
              'bigendian', 'readonly', 'complex', 'masked']
 
@@ -381,9 +385,16 @@ def snapshot(v, depth=0, seen=None):
     """Canonical, comparable, immutable picture of a value, down to the bytes of arrays."""
     if depth > 8:
         return ('deep',)
+    if isinstance(v, (list, tuple, dict)) or (type(v).__module__ or '').startswith('spatialmath'):
+        # a container that contains itself (x.insert(0, x) on a zero-valued object does that) is
+        # cut at the point of recursion instead of being unfolded exponentially
+        seen = seen or ()
+        if any(v is s_ for s_ in seen):
+            return ('cycle',)
+        seen = seen + (v,)
     if isinstance(v, np.ndarray):
         if v.dtype == object:
-            return ('ndobj', v.shape, tuple(snapshot(x, depth + 1) for x in v.ravel().tolist()))
+            return ('ndobj', v.shape, tuple(snapshot(x, depth + 1, seen) for x in v.ravel().tolist()[:4096]))
         if isinstance(v, np.ma.MaskedArray):
             return ('ndmasked', v.shape, v.dtype.str, np.asarray(v.data).tobytes(),
                     np.ma.getmaskarray(v).tobytes())
@@ -397,13 +408,13 @@ def snapshot(v, depth=0, seen=None):
     if isinstance(v, complex):
         return ('cpx', _fbits(v.real), _fbits(v.imag))
     if isinstance(v, (list, tuple)):
-        return (type(v).__name__, tuple(snapshot(x, depth + 1) for x in v))
+        return (type(v).__name__, tuple(snapshot(x, depth + 1, seen) for x in v))
     if isinstance(v, dict):
-        return ('dict', tuple((repr(k), snapshot(v[k], depth + 1)) for k in v))
+        return ('dict', tuple((repr(k), snapshot(v[k], depth + 1, seen)) for k in v))
     mod = type(v).__module__ or ''
     if mod.startswith('spatialmath'):
         d = getattr(v, '__dict__', {})
-        pub = tuple((k, snapshot(d[k], depth + 1)) for k in sorted(d)
+        pub = tuple((k, snapshot(d[k], depth + 1, seen)) for k in sorted(d)
                     if not k.startswith('_'))
         return ('obj', type(v).__name__, pub)
     return ('other', type(v).__name__, _ADDR.sub(' at 0x?', repr(v)[:200]))
